@@ -11,6 +11,7 @@ import (
 	"net"
 	"net/http"
 	"os"
+	"sort"
 	"strings"
 	"sync"
 	"sync/atomic"
@@ -129,6 +130,7 @@ type W struct {
 	// PsExpected: GB28181 sessions (start_rtp_pub) the harness knows to be running; each has a
 	// goroutine of the server reading a real UDP socket, counted with the relay goroutines
 	PsExpected int
+	atTick     map[string][2]uint64 // session byte counters when the last tick ended
 	// PsAuto: count the GB28181 sessions the server's groups hold instead of PsExpected (for harnesses in
 	// which the server may end such a session by itself)
 	PsAuto bool
@@ -290,7 +292,44 @@ func (w *W) Settle() error {
 func (w *W) Tick() error {
 	w.Advance(time.Second)
 	w.SM.VerifTick(&w.tick)
-	return w.Settle()
+	err := w.Settle()
+	w.atTick = w.counters()
+	return err
+}
+
+// counters: the byte counters of every session the stat API lists.
+func (w *W) counters() map[string][2]uint64 {
+	m := map[string][2]uint64{}
+	for _, g := range w.SM.StatAllGroup() {
+		add := func(id string, r, wr uint64) {
+			if id != "" {
+				m[id] = [2]uint64{r, wr}
+			}
+		}
+		add(g.StatPub.SessionId, g.StatPub.ReadBytesSum, g.StatPub.WroteBytesSum)
+		add(g.StatPull.SessionId, g.StatPull.ReadBytesSum, g.StatPull.WroteBytesSum)
+		for _, u := range g.StatSubs {
+			add(u.SessionId, u.ReadBytesSum, u.WroteBytesSum)
+		}
+	}
+	return m
+}
+
+// LivenessSig says, per session, whether its byte counters have moved since the last tick (or that no
+// tick has seen it yet). lal's liveness checks act on exactly this hidden state, so explicit-state
+// searches whose alphabet has ticks make it part of their fingerprint.
+func (w *W) LivenessSig() string {
+	var mv []string
+	for id, v := range w.counters() {
+		kind := strings.TrimRight(id, "0123456789")
+		if o, ok := w.atTick[id]; ok {
+			mv = append(mv, fmt.Sprintf("%s:r%v,w%v", kind, v[0] != o[0], v[1] != o[1]))
+		} else {
+			mv = append(mv, kind+":unchecked")
+		}
+	}
+	sort.Strings(mv)
+	return strings.Join(mv, " ")
 }
 
 // Close ends every goroutine of this world.
